@@ -30,13 +30,13 @@ PROPS = {
                      "Rtr.C11.loop_overrun_current", "Rtr.C11.loop_overrun_repaired",
                      "Rtr.C11.witness_valid_skiOnly", "Rtr.C11.decision_fails_skiOnly", "Rtr.C11.witness_refused_skiAndAs",
                      "Rtr.C11.digest_injective", "Rtr.C11.digest_changes",
-                     "Rtr.C11.err_null", "Rtr.C11.err_arguments", "Rtr.C11.err_segment_count", "Rtr.C11.err_suite",
+                     "Rtr.C11.err_null", "Rtr.C11.err_null_nlri", "Rtr.C11.err_arguments", "Rtr.C11.err_segment_count", "Rtr.C11.err_suite",
                      "Rtr.C11.err_afi", "Rtr.C11.err_missing_key", "Rtr.C11.never_valid_unless_supported"],
     },
     "C12": {
         "modules": ["RtrProps.C12"],
         "theorems": ["Rtr.C12.sign_digest_eq_rfc", "Rtr.C12.sign_stream_size", "Rtr.C12.generate_signs_rfc_digest",
-                     "Rtr.C12.hop_by_hop_valid", "Rtr.C12.sign_err_null", "Rtr.C12.sign_err_arguments",
+                     "Rtr.C12.hop_by_hop_valid", "Rtr.C12.sign_err_null", "Rtr.C12.sign_err_null_nlri", "Rtr.C12.sign_err_arguments",
                      "Rtr.C12.sign_err_suite", "Rtr.C12.sign_err_afi", "Rtr.C12.sign_err_segment_count",
                      "Rtr.C12.sign_err_key", "Rtr.C12.sign_no_output_on_error"],
     },
@@ -52,6 +52,8 @@ CORPUS_FILES = {
     "Fbgp1_pathlen_wrap_sign.ops": ("C12", "C12/segment-count-wrap"),
     "Fbgp2_stream_size_overflow.ops": ("C11", "C11/stream-size-overflow"),
     "Fbgp3_loop_overrun.ops": ("C11", "C11/loop-overrun"),
+    "Fbgp4_null_nlri_validate.ops": ("C11", "C11/null-nlri"),
+    "Fbgp4_null_nlri_sign.ops": ("C12", "C12/null-nlri"),
 }
 
 
@@ -184,6 +186,23 @@ def run_corpus_file(R, path):
                 fails.append((raw, exp, out, ""))
         exp = None
     return fails
+
+
+def corpus_model_lines(path):
+    """the `#=` lines of a corpus file whose request the model driver also understands verbatim"""
+    res = []
+    exp = None
+    for raw in open(path):
+        raw = raw.rstrip("\n")
+        if raw.startswith("#= "):
+            exp = raw[3:].strip()
+            continue
+        if not raw.strip() or raw.startswith("#"):
+            continue
+        if exp and raw.split()[0] in ("validate-nonlri", "gensig-nonlri"):
+            res.append((raw, exp))
+        exp = None
+    return res
 
 
 # ------------------------------------------------------------------------------------------
@@ -573,6 +592,10 @@ def run(pid, tier):
         prop, sig = CORPUS_FILES.get(fn, (None, None))
         fails = run_corpus_file(R, os.path.join(CORPUS, fn))
         stats["corpus"][fn] = "fails" if fails else "ok"
+        for raw, exp in corpus_model_lines(os.path.join(CORPUS, fn)):
+            mo = R.model([raw])[0]
+            if mo != exp:
+                divergences.append(("corpus " + fn + " (model as repaired)", raw[:300], exp, mo))
         if fn == "F10_key_as_mismatch.ops" and fails:
             mode = "ski"
         if fn == "Fbgp3_loop_overrun.ops" and not fails:
